@@ -256,6 +256,16 @@ def run(P, R, tier):
                 c = T.strip_casts(x[2])
                 if c[0] == "Bin" and c[2] == "==" and T.lit_value(c[4]) == 0 and any(T.callee_q(cc) == "IPhreeqc::test_db" for cc in T.calls(x[3])):
                     okc = True
+        # equivalent early-return form: `if (n != 0) { ... return ...; }` as a top-level statement before a top-level test_db()
+        top = [s_ for s_ in f["body"][2] if T.is_node(s_)]
+        for i_, s_ in enumerate(top):
+            if s_[0] == "If" and not T.is_node(s_[4]):
+                c = T.strip_casts(s_[2])
+                th = s_[3][2] if s_[3][0] == "Compound" else [s_[3]]
+                if c[0] == "Bin" and c[2] == "!=" and T.lit_value(c[4]) == 0 and th and T.is_node(th[-1]) and th[-1][0] == "Return":
+                    if any(T.callee_q(cc) == "IPhreeqc::test_db" for t_ in top[i_ + 1:] for cc in T.calls(t_)) and \
+                            not any(T.callee_q(cc) == "IPhreeqc::test_db" for t_ in top[:i_ + 1] for cc in T.calls(t_)):
+                        okc = True
         if okc:
             R.ok("C07.order", q, "test_db() run exactly when the load reported 0 errors")
         else:
